@@ -92,5 +92,31 @@ theorem applyToVar_inDomain {ρ : String → K} (an : Analyzer (Ext K)) (d : Dom
       · have := hd.1; simpa [LB, Ext.le] using this
     | real lo hi => exact ⟨by first | rfl | trivial, hm⟩
 
+/-! ### `enforceable`: rounding the stored integer ranges (fix b9d407a) -/
+
+theorem LB_ceil_sub {lo : Ext K} {tol : K} (htol : 0 ≤ tol) {n : Int} (hn : LB lo (n : K)) :
+    LB (Arith.ceil (Arith.sub lo (.fin tol))) (n : K) := by
+  cases lo with
+  | nan => simp at hn
+  | pinf => simp at hn
+  | ninf => simp [Arith.ceil, Ext.sub, Ext.add, Ext.neg]
+  | fin l =>
+    have hl : l ≤ n := by simpa using hn
+    have h1 : Int.ceil (l - tol) ≤ n := Int.ceil_le.2 (by linarith)
+    simp only [a_sub, Ext.sub, Ext.neg, Ext.add, ef_neg, ef_add, Arith.ceil, ef_ceil, ef_ofInt, ← sub_eq_add_neg, LB_fin]
+    exact_mod_cast h1
+
+theorem UB_floor_add {hi : Ext K} {tol : K} (htol : 0 ≤ tol) {n : Int} (hn : UB hi (n : K)) :
+    UB (Arith.floor (Arith.add hi (.fin tol))) (n : K) := by
+  cases hi with
+  | nan => simp at hn
+  | ninf => simp at hn
+  | pinf => simp [Arith.floor, Ext.add]
+  | fin h =>
+    have hl : (n : K) ≤ h := by simpa using hn
+    have h1 : n ≤ Int.floor (h + tol) := Int.le_floor.2 (by linarith)
+    simp only [a_add, Ext.add, ef_add, Arith.floor, ef_floor, ef_ofInt, UB_fin]
+    exact_mod_cast h1
+
 end BoundsProofs
 end Rooc
